@@ -429,7 +429,7 @@ fn c15_for<S: AnyScan>(cfg: &Cfg, rep: &mut Report, timeouts: &[u64]) {
 }
 
 pub fn run_c15(cfg: &Cfg, rep: &mut Report) {
-    rep.rule("lock-step differential twins: one shared scanner receives the interleaved stream, 16 solo scanners each receive only their channel's feeds/polls at the same (mock) clock instants; every output of the shared scanner must equal the solo scanner's and carry the triggering channel; system messages (all 16 status bytes) go to the shared scanner only and must return nothing and leave it equal. Exhaustive two-channel product to a fixpoint for ordered channel pairs (quick: 32 pairs, thorough: all 240) for all three scanners; seeded random interleavings of up to 16 channels over the full alphabet; distinct_nontrivial = explorer states + random interleavings with at least one report");
+    rep.rule("lock-step differential twins: one shared scanner receives the interleaved stream, 16 solo scanners each receive only their channel's feeds/polls at the same (mock) clock instants; every output of the shared scanner must equal the solo scanner's and carry the triggering channel; system messages (all 16 status bytes) go to the shared scanner only and must return nothing and leave it equal. Exhaustive two-channel product to a fixpoint for ordered channel pairs (quick: 32 pairs, thorough: all 240) for all three scanners; seeded random interleavings of up to 16 channels over the full alphabet; distinct_nontrivial = explorer states + random interleavings with at least one report ; pair explorers rotate the abstract value per pair and additionally explore manager/member channel pairs (0,3), (15,12), (0,1) with spec-dictionary values {0,6}/{0,3} on the manager channel");
     c15_for::<ControlChange14BitMessageScanner>(cfg, rep, &[0]);
     c15_for::<ParameterNumberMessageScanner>(cfg, rep, &[0]);
     #[cfg(feature = "std")]
@@ -692,7 +692,7 @@ fn c16_for<S: AnyScan>(cfg: &Cfg, rep: &mut Report, timeouts: &[u64]) {
 }
 
 pub fn run_c16(cfg: &Cfg, rep: &mut Report) {
-    rep.rule("every reachable state of each scanner (fixpoint over an abstracted contributing alphabet; polling: timeouts {0, 2 ticks}) x every non-contributing message (all 112 non-CC status bytes x sampled data bytes — thorough/release: all data bytes on the state's own channel —, every non-contributing controller number x all 128 values on the own channel and another channel): feed returns nothing and the scanner compares equal to its copy; twin comparison of seeded random histories with and without random non-contributing insertions; predicates on all 128 controller numbers and the named *_LSB constants; distinct_nontrivial = states visited + twin histories with a report");
+    rep.rule("every reachable state of each scanner (fixpoint over an abstracted contributing alphabet; polling: timeouts {0, 2 ticks}) x every non-contributing message (all 112 non-CC status bytes x sampled data bytes — thorough/release: all data bytes on the state's own channel —, every non-contributing controller number x all 128 values on the own channel and another channel): feed returns nothing and the scanner compares equal to its copy; twin comparison of seeded random histories with and without random non-contributing insertions; predicates on all 128 controller numbers and the named *_LSB constants; distinct_nontrivial = states visited + twin histories with a report ; state explorers rotate abstract values/channels and include spec-dictionary pairs");
     c16_for::<ControlChange14BitMessageScanner>(cfg, rep, &[0]);
     c16_for::<ParameterNumberMessageScanner>(cfg, rep, &[0]);
     #[cfg(feature = "std")]
@@ -1025,7 +1025,7 @@ fn c17_for<S: AnyScan>(cfg: &Cfg, rep: &mut Report, timeouts: &[u64]) {
 }
 
 pub fn run_c17(cfg: &Cfg, rep: &mut Report) {
-    rep.rule("for every reachable state of each scanner (fixpoint over an abstracted alphabet on two channels; polling: timeouts {0, 2 ticks, 5 ticks}) and for seeded random full-alphabet states: reset() then == new(same timeout); lock-step of the reset scanner and a new one over seeded suffixes (equal outputs and equal states at every step); a copy stays equal to its snapshot while the original evolves and then evolves identically; new() == default() (polling: default() == new(0) and behaves as zero timeout); distinct_nontrivial = states checked");
+    rep.rule("for every reachable state of each scanner (fixpoint over an abstracted alphabet on two channels; polling: timeouts {0, 2 ticks, 5 ticks}) and for seeded random full-alphabet states: reset() then == new(same timeout); lock-step of the reset scanner and a new one over seeded suffixes (equal outputs and equal states at every step); a copy stays equal to its snapshot while the original evolves and then evolves identically; new() == default() (polling: default() == new(0) and behaves as zero timeout); distinct_nontrivial = states checked ; state explorers rotate abstract values/channels and include spec-dictionary pairs");
     c17_for::<ControlChange14BitMessageScanner>(cfg, rep, &[0]);
     c17_for::<ParameterNumberMessageScanner>(cfg, rep, &[0]);
     #[cfg(feature = "std")]
